@@ -20,18 +20,24 @@ func zzH10mon() {
 	var conns []*zzConn
 	goroutinesAtRedial, base := -1, 0
 	dialer := system.NewDialer("eth1", st, system.Monitor, nil)
+	early := zzNondetChoice("link-change-during-initialisation", 2) == 1
+	var watchC chan netstate.Change
+	if zzNondetChoice("subscribed", 2) == 1 {
+		watchC = make(chan netstate.Change, 8)
+	}
 	dialer.DialFunc = func() (*system.DialContext, error) {
 		dials++
 		if dials == 2 {
 			goroutinesAtRedial = zzGoroutines()
 		}
+		if early && watchC != nil && dials == 1 {
+			// the link changes right after the socket was opened, before the
+			// monitor has started its activities: the event is about this connection
+			watchC <- netstate.LinkDown
+		}
 		c := &zzConn{blockWhenIdle: true}
 		conns = append(conns, c)
 		return &system.DialContext{Conn: c, Interface: &net.Interface{Index: 3, Name: "eth1"}, IP: netip.MustParseAddr("fe80::2")}, nil
-	}
-	var watchC chan netstate.Change
-	if zzNondetChoice("subscribed", 2) == 1 {
-		watchC = make(chan netstate.Change, 8)
 	}
 	m := NewMonitor(zzNewContext(rec, st), "eth1", dialer, watchC, false)
 	ctx, cancel := context.WithCancel(context.Background())
@@ -43,6 +49,15 @@ func zzH10mon() {
 	}()
 	base = zzGoroutines()
 	zzWaitIdle()
+	if early && watchC != nil {
+		zzAssert(dials == 2, "link-change-during-initialisation-re-establishes-the-task")
+		zzAssert(!returned, "task-keeps-running-after-recovery")
+		cancel()
+		zzWaitIdle()
+		zzAssert(returned && ret == nil, "clean-return-on-cancellation")
+		zzAssert(zzGoroutines() == 0, "no-activity-left-behind")
+		return
+	}
 	// an invalid message first: counted invalid, no monitor metric
 	badHop := int(zzNondetUint8("hop"))
 	zzAssume(badHop != 255)
